@@ -152,3 +152,14 @@ CHECKS["C19"] = chain("TestC19", "property-based testing of recorded per-height 
     "rapid-generated histories of 8-26 blocks with injected mempool checks and ~12% restarts; non-trivial = a re-ask of a height >= 3 blocks old for a key whose answer changed since, or a mid-block height-0 ask for a key changed by a preceding successful DeliverTx of that block; distinct = distinct shape hashes",
     quick=80, thorough=250,
     note=CHAIN_NOTE + " Answers are compared as values (JSON canonicalised): the proposal query renders its voter map in Go's random map order. stakes/voting_power is evaluated with the current limits by design and is not among the paths the property lists.")
+
+CHECKS["C17"] = {
+    "test": "TestC17", "level": "exploration", "engine": "evm",
+    "technique": "property-based differential testing against vanilla go-ethereum on a unified reference world, with generated contract programs",
+    "level_text": "Exploration with a differential oracle: contract programs are generated from a small IR (SSTORE, LOGn, CALL/STATICCALL/DELEGATECALL with value, gas caps and revert-if-failed/record-result, CREATE of child templates, SELFDESTRUCT, REVERT/RETURN/INVALID, conditionals on calldata, expressions over SLOAD, CALLVALUE, BALANCE, SELFBALANCE, CALLER, ORIGIN, COINBASE, ...) and assembled in the harness; call targets are passed in calldata (EOAs touched or not, other contracts, self, precompiles 1-4, fresh addresses). Histories mix deployments, calls with value, plain transfers to contract addresses, native transfers/staking/withdrawals on the same accounts and read-only vm_call queries at the latest and recent heights. Every admitted contract-path tx is executed on a vanilla go-ethereum StateDB holding the model's balances and nonces (this chain's rule: a failed tx leaves no trace); success/failure, return data, gas used and logs must agree per tx, and after every block the balances and nonces of all accounts, the code and storage slots of every touched contract and the native code markers must agree; vm_call must equal a reference call on a copy of the world and a quiet twin must commit the same hashes.",
+    "level_note": "go-ethereum's interpreter (as linked by the repository) is the reference EVM: an interpreter bug shared by both sides is invisible. Precompile 1 is replaced by the repository for both sides alike. Known finding F10b (self-destructed contracts keep nonce/marker natively) is excluded by retiring such addresses (counted).",
+    "quick": {"checks": 70, "timeout": 900},
+    "thorough": {"checks": 250, "shards": 15, "timeout": 3000},
+    "rule": "rapid-generated programs and histories of 6-22 blocks; non-trivial = a successful call of a generated contract in a history that also has successful native value operations; labels count compared txs, reference-side failures (revert/out-of-gas/nested), inner creates, self-destructs, logs, burns and compared vm_calls; distinct = distinct shape hashes",
+    "assumptions": COMMON_ASSUME,
+}
